@@ -240,6 +240,17 @@ func (c *Client) BatchGet(ctx context.Context, keys [][]byte, version uint64) (m
 				continue
 			}
 			responses := resp.GetResponses()
+			// A read that met a lock carries no value: it is a conflict for the caller to
+			// resolve and retry, not an empty value.
+			var keyErrs []*pb.KeyError
+			for _, r := range responses {
+				if keyErr := r.GetError(); keyErr != nil {
+					keyErrs = append(keyErrs, keyErr)
+				}
+			}
+			if len(keyErrs) > 0 {
+				return nil, &KeyConflictError{Errors: keyErrs}
+			}
 			for i, keyID := range group.ids {
 				var getResp *pb.GetResponse
 				if i < len(responses) && responses[i] != nil {
